@@ -2,9 +2,7 @@
 """Regenerates MANIFEST.json from the table below (single source of truth)."""
 import json
 CLAIMED = json.load(open("/verif/claims.json"))
-NA = {
- "C19": "numeric order of XOR distances over runtime key sets; no clause is visible in the shape of the code, and a comparator-orientation lint would report 'holds' on a tree where the property is false (DESIGN §4 C19)",
-}
+NA = {}
 ALL = [json.loads(l)["id"] for l in open("/verif/properties.jsonl")]
 checks = []
 for pid in ALL:
